@@ -25,5 +25,5 @@ SPECS = {
     "C17": props_file.C17,
 }
 # specs that can be run (./check) but are not claimed in MANIFEST.json yet
-IN_PROGRESS = {"C17"}
+IN_PROGRESS = set()
 NOT_CLAIMED = {}
